@@ -407,6 +407,90 @@ def decodeStreamFrom (ops : FloatOps) (o : Opts) (c : Card) (k : Kind) (fresh : 
 def decodeStream (ops : FloatOps) (o : Opts) (c : Card) (k : Kind) (js : List J) : List (Res Field) :=
   decodeStreamFrom ops o c k true [] js
 
+/-! ### the codec as a function of (options, target resolver, value): sequences of uses over several descriptor sets
+
+  Message-typed bodies (and `google.protobuf.Any` inside them) are handed to protojson with the type resolver of
+  the request's target: `JSONMarshaler.Marshal / Unmarshal / NewEncoder / NewDecoder(types, …)` take the resolver
+  as an ARGUMENT and copy their options per call. Abstractly a resolver is the list of message types it knows,
+  each with the number of fields its descriptor has; an Any-carried value is a type and the field numbers set. -/
+
+/-- a target's type resolver: (message type, number of fields of its descriptor) -/
+abbrev Resolver := List (Nat × Nat)
+
+/-- the message packed into an Any: its type and the (0-based) numbers of the fields that are set -/
+structure AnyVal where
+  typ : Nat
+  fields : List Nat
+  deriving DecidableEq, Repr
+
+/-- protojson of an Any with a resolver: an unknown type cannot be resolved (error); fields the resolver's
+    descriptor does not have are unknown fields and are not written -/
+def encodeAny (res : Resolver) (a : AnyVal) : Res AnyVal :=
+  match res.find? (fun p => p.1 == a.typ) with
+  | none => .err
+  | some (_, n) => .ok { typ := a.typ, fields := a.fields.filter (· < n) }
+
+/-- one use of a marshaler: through a stream Encoder/Decoder (`NewEncoder`/`NewDecoder`) or single-shot,
+    for a target with resolver `res`, on a body carrying `val` -/
+structure CodecUse where
+  stream : Bool
+  res : Resolver
+  val : AnyVal
+  deriving DecidableEq, Repr
+
+/-- the uses of ONE marshaler in a process, in order. `sticky = false` is the code: every use resolves with the
+    resolver it was given. `sticky = true` is a marshaler that binds the resolver of its first stream into a cached
+    copy of itself (state: that resolver) and uses it for every later stream. -/
+def runUsesFrom (sticky : Bool) : Option Resolver → List CodecUse → List (Res AnyVal)
+  | _, [] => []
+  | cached, u :: rest =>
+    let res := if sticky && u.stream then cached.getD u.res else u.res
+    let cached' := if u.stream && cached.isNone then some u.res else cached
+    encodeAny res u.val :: runUsesFrom sticky cached' rest
+
+def runUses (us : List CodecUse) : List (Res AnyVal) := runUsesFrom false none us
+
+/-! ### the root constructor's wiring of the configured marshalers to the entry points
+
+  `grpcbridge.NewWebBridge(router, WithMarshalers(…), WithDefaultMarshaler(…))` builds ONE StandardTranscoder from the
+  options and hands it to the transcoded HTTP bridge (plain HTTP, streamed and SSE responses) and to the transcoded
+  WebSocket bridge. `StandardTranscoder.pickRequestMarshaler`: a request with `Content-Type: application/json` gets the
+  marshaler registered for it (`WithMarshalers`, default `[DefaultJSONMarshaler]`), a request without Content-Type the
+  default marshaler (`WithDefaultMarshaler`, default `DefaultJSONMarshaler`, which discards unknowns). -/
+
+/-- the JSON marshalers configured at the root: `none` = option not given, `some d` = a JSONMarshaler with DiscardUnknown = d -/
+structure BridgeCfg where
+  marshalers : Option Bool
+  dflt : Option Bool
+  deriving DecidableEq, Repr
+
+/-- DiscardUnknown of the marshaler `pickRequestMarshaler` picks -/
+def pickDiscard (t : BridgeCfg) (hasContentType : Bool) : Bool :=
+  if hasContentType then t.marshalers.getD true else t.dflt.getD true
+
+inductive Entry where
+  | http | httpStream | sse | ws
+  deriving DecidableEq, Repr
+
+/-- which transcoder configuration each bridge handler was constructed with -/
+structure Wiring where
+  http : BridgeCfg
+  ws : BridgeCfg
+
+/-- `NewWebBridge`: the same transcoder for both handlers -/
+def rootWiring (cfg : BridgeCfg) : Wiring := { http := cfg, ws := cfg }
+
+/-- a constructor that forgets to pass the transcoder to the WebSocket bridge (it then builds its own default one) -/
+def droppedWsWiring (cfg : BridgeCfg) : Wiring := { http := cfg, ws := { marshalers := none, dflt := none } }
+
+def entryCfg (w : Wiring) : Entry → BridgeCfg
+  | .ws => w.ws
+  | _ => w.http
+
+/-- decoding the request body of a call that arrives at entry point `e` -/
+def entryDecode (ops : FloatOps) (w : Wiring) (e : Entry) (hasContentType : Bool) (c : Card) (k : Kind) (j : J) : Res Field :=
+  decode ops { discard := pickDiscard (entryCfg w e) hasContentType } c k j
+
 /-! ### the code before the fixes (kept to state what was wrong) -/
 
 /-- two's-complement wrap of `i` to `bits` bits — Go's `T(i)` conversion -/
